@@ -198,7 +198,8 @@ func (s *SourceControl) ConfigureRoachSource(args *RoachSourceConfig, reply *boo
 	return err
 }
 
-// runLaterIfActive will return error if source is Inactive; otherwise it will
+// runLaterIfActive will return error if source is Inactive (or stops before it
+// takes the request); otherwise it will
 // run the closure f at an appropriate point in the data handling cycle
 // and return any error sent on s.queuedRequests.
 func (s *SourceControl) runLaterIfActive(f func()) error {
@@ -208,7 +209,13 @@ func (s *SourceControl) runLaterIfActive(f func()) error {
 		return fmt.Errorf("no source is active")
 	}
 	verifPoint("rpc.beforeSend")
-	s.queuedRequests <- f
+	// The source may have ended by itself since isSourceActive was last updated; then there is no
+	// core loop left to receive the request, and waiting for one would block this caller forever.
+	select {
+	case s.queuedRequests <- f:
+	case <-s.ActiveSource.RunDoneChan():
+		return fmt.Errorf("no source is active")
+	}
 	verifPoint("rpc.sent")
 	return <-s.queuedResults
 }
